@@ -69,7 +69,7 @@ fn product(name: &str, fillers: &[&str], n: usize) -> Vec<Space> {
 }
 
 pub fn t3_spaces(tier: Tier) -> Vec<Space> {
-    product("T3.", &["a", "é", "€", "😀", "\n", " "], if tier == Tier::Quick { 4 } else { 6 })
+    product("T3.", &["a", "é", "€", "😀", "\n", " ", "\u{a0}", "="], if tier == Tier::Quick { 4 } else { 5 })
 }
 
 pub fn t4_spaces(tier: Tier) -> Vec<Space> {
